@@ -853,6 +853,30 @@ OPW = [("set", 22), ("get", 10), ("del", 6), ("in", 4), ("isg", 4), ("addg", 11)
 OPS_FLAT = [k for k, w in OPW for _ in range(w)]
 
 
+def like_item(rng, x):
+    """A dict literal sharing the plain entries of the reference item x, plus sometimes one more entry:
+    several items then answer the same get_group_by_tag question and only index order tells them apart."""
+    d = [[spell(rng, k), ["s", v]] for k, v in x.d.items() if isinstance(v, str) and is_int_key(k)]
+    rng.shuffle(d)
+    d = d[:rng.randrange(1, 3)]
+    if rng.random() < 0.7:
+        d.append([spell(rng, str(rng.choice([5000, 55, 9]))), ["s", rng.choice(["p", "q", "r"])]])
+    return ["D", d]
+
+
+def sibling_items(rng):
+    """Items of a new group that share one (tag, value) pair."""
+    base = [spell(rng, str(rng.choice(NUMS))), ["s", rng.choice(["a", "b", "0"])]]
+    out = []
+    for _ in range(rng.randrange(2, 5)):
+        d = [list(base)] if rng.random() < 0.8 else []
+        if rng.random() < 0.7:
+            d.append([spell(rng, str(rng.choice([55, 9, 10]))), ["s", rng.choice(["p", "q", "r"])]])
+        rng.shuffle(d)
+        out.append(["D", d])
+    return out
+
+
 def group_keys(c):
     return [k for k, v in c.d.items() if not isinstance(v, str)]
 
@@ -881,8 +905,12 @@ def gen_op(rng, ref):
         t = spell(rng, rng.choice(gk)) if gk and rng.random() < 0.6 else gen_tag(rng, c, 0.25)
         n = len(c.d.get(ref_key(t), [])) if isinstance(c.d.get(ref_key(t)), list) else 0
         idx = rng.choice([None, None, -1, 0, 1, n, n + 1, -2, -n, -n - 1, n - 1, 5, -7])
+        if n and rng.random() < 0.3:
+            return ["addg", i, t, like_item(rng, rng.choice(c.d[ref_key(t)])), idx]
         return ["addg", i, t, gen_item(rng, 1), idx]
     if k == "setg":
+        if rng.random() < 0.35:
+            return ["setg", i, gen_tag(rng, c, 0.2), sibling_items(rng)]
         return ["setg", i, gen_tag(rng, c, 0.3), [gen_item(rng, 1) for _ in range(rng.randrange(0, 4))]]
     if k == "gtag":
         dst = rng.randrange(NVARS) if rng.random() < 0.3 else None
@@ -1041,7 +1069,10 @@ def account(ctx, r, model_res):
     for why, n in r.oracle.skipped.items():
         ctx.count("oracle_unjudged:" + why, n)
     for (i, what, cls) in r.findings:
-        ctx.fail({"ops": r.ops[:i + 1]}, "step %d: %s" % (i, what), cls)
+        ops = r.ops[:i + 1]
+        if not any(k.get("class") == cls for k in ctx.known) and not ctx.failures:
+            ops, i, what = shrink(ops, cls, what)
+        ctx.fail({"ops": ops}, "step %d: %s" % (i, what), cls)
     for what in r.pickle_check():
         ctx.fail({"ops": r.ops}, what, None)
     if model_res is not None and r.impl != model_res:
@@ -1050,6 +1081,23 @@ def account(ctx, r, model_res):
                      model_res[i] if i < len(model_res) else None,
                      "container-op-results" if (i < len(r.impl) and i < len(model_res) and r.impl[i][0] != model_res[i][0])
                      else "container-text-after-op")
+
+
+def shrink(ops, cls, what):
+    """Delta-debug a failing sequence: a shorter one on which the oracle still reports a failure of the same class."""
+    from vlib.core import ddmin
+
+    def still(sub):
+        try:
+            return any(c == cls for (_, _, c) in replay_sequence(sub).findings)
+        except Exception:  # noqa: BLE001
+            return False
+    small = ddmin(ops, still, max_tests=300)
+    r = replay_sequence(small)
+    hit = next(((i, w) for (i, w, c) in r.findings if c == cls), None)
+    if hit is None:
+        return ops, len(ops) - 1, what
+    return small[:hit[0] + 1], hit[0], hit[1]
 
 
 def corpus():
@@ -1061,7 +1109,7 @@ def corpus():
 
 def run(ctx):
     n = ctx.scale(2500, 60000)
-    maxops = ctx.scale(25, 60)
+    maxops = ctx.scale(25, 40)
     runs = [replay_sequence(ops) for ops in WITNESSES + corpus()]
     for _ in range(n):
         runs.append(gen_sequence(ctx.rng, ctx.rng.randrange(3, maxops + 1)))
@@ -1100,5 +1148,10 @@ def replay(path):
         print("step %d %s -> %r  |  %s" % (i, json.dumps(o), x[0], "".join(map(chr, x[1]))))
     for (i, what, cls) in r.findings:
         print("ORACLE step %d: %s [class %s]" % (i, what, cls))
-    bad = r.findings + [(None, w, None) for w in r.pickle_check()]
+    from vlib.core import load_findings
+    listed = {k.get("class") for k in load_findings("C18")[0]}
+    for w in r.pickle_check():
+        print("ORACLE " + w)
+    bad = [f for f in r.findings if f[2] not in listed] + r.pickle_check()
+    print("replay: %s" % ("still fails" if bad else "no failure outside the known classes"))
     return 1 if bad else 0
